@@ -18,3 +18,17 @@ Lemma C09_inst_record_fields :
      ("issue_confidence", "confidence"); ("issue_text", "text"); ("line_range", "linerange"); ("test_name", "test")] = true.
 Proof. vm_compute. reflexivity. Qed.
 Print Assumptions C09_inst_record_fields.
+
+(* JSON and YAML order their records with a stable sort on the test name (-a vuln) or on the file name: the
+   keys sort_by of Formats/Grouping.v is instantiated with in the grouping theorems *)
+From Bandit Require Import Gen.FormatFacts.
+Lemma C09_inst_sort_keys :
+  (fix eqb (a b : list (pstr * (pstr * pstr))) : bool :=
+     match a, b with
+     | [], [] => true
+     | x :: a', y :: b' => pstr_eqb (fst x) (fst y) && pstr_eqb (fst (snd x)) (fst (snd y)) && pstr_eqb (snd (snd x)) (snd (snd y)) && eqb a' b'
+     | _, _ => false
+     end) SORT_KEYS
+    [(s2p "json", (s2p "test_name", s2p "filename")); (s2p "yaml", (s2p "test_name", s2p "filename"))] = true.
+Proof. vm_compute. reflexivity. Qed.
+Print Assumptions C09_inst_sort_keys.
